@@ -6,7 +6,9 @@
    pause / unpause / cancel / update, block-hook outcome at every block (continue / pause / error), send
    outcome of every message (ok / failed = peer gone), the worker being occupied or freed, the executor's
    FinishTask round trip being overtaken by the message queue's notifications (LGateHold / LFinish), its
-   StartTask round trip being overtaken by anything that reaches the loop first (LArmStart / LStart), and any
+   StartTask round trip being overtaken by anything that reaches the loop first (LArmStart / LStart), an
+   update's answer waiting in the loop for the peer's memory until a send fails or memory is released
+   (LUpdStall / LMemFree), and any
    resolution of the executor's select when several signals are pending — for ANY number n of blocks.
 
    Full statement of the property (kept visible): every request reaches exactly one outcome (completed
@@ -26,7 +28,8 @@ Open Scope N_scope.
    entry is in CompletingSend only while a terminal status of it waits to be sent, and such a status belongs
    to such an entry or to an executor parked before FinishTask (p_completing); once the executor is out of
    a response that is gone, no task of it is active or pending in the task queue (p_task); a block hook only
-   ever runs for a response that is Running (p_exec). *)
+   ever runs for a response that is Running (p_exec); after a network-error outcome the stream is closed and
+   nothing of the request is in flight or queued, so no completed notification can follow (p_afternet). *)
 Theorem C05_safety : forall n ls, p_safety (fst (run cfg_now n ls)) = true.
 Proof. exact c05_safety. Qed.
 Print Assumptions C05_safety.
@@ -109,6 +112,13 @@ Example C05_start_overtaken :
   let a := fst (run cfg_now 2 ls) in
   let b := fst (run cfg_now 2 (ls ++ [(LStart, 0); (LSend true, 0)])) in
   (st_code a = 4 /\ tq a = 2 /\ stk a = true) /\ (st_code b = 0 /\ tq b = 0 /\ n_done b = 1 /\ quiescent b = true).
+Proof. vm_compute. repeat split. Qed.
+
+(* a rejection waits in the loop for the peer's memory while the message in flight fails: it is dropped by
+   the closed stream; the one outcome is the network error *)
+Example C05_stalled_rejection :
+  let a := fst (run cfg_now 2 [(LNew HAccept, 0); (LGate GCont, 0); (LGate GPause, 0); (LUpdStall UExtErr, 0); (LSend false, 0)]) in
+  quiescent a = true /\ st_code a = 0 /\ n_net a = 1 /\ n_done a = 0 /\ infl a = None /\ pend a = None.
 Proof. vm_compute. repeat split. Qed.
 
 Example C05_monitor_runs :
